@@ -184,7 +184,11 @@ def run(tier, seed):
                 tasks.append(("small", (name, "both", ch)))
     items = [b""] + [bytes([i]) for i in range(256)] + [bytes([(7 * n + i) % 256 for i in range(n)]) for n in LENGTHS] + \
             [b"M", b"N", b"symmetric", b"Symmetric", b"M\x00", b"password", b"\x00" * 64, b"\xff" * 64]
+    bnd = [b for b in C.boundary_strings() if b not in items]
     for name in T.SHIPPED:
+        if not quick or name in ("ParamsEd25519", "Params1024"):
+            for ch in core.chunks(bnd, 12):
+                tasks.append(("slice", (name, "both", ch)))
         sub = items if (not quick or name == "ParamsEd25519") else items[:1] + items[1:257:4] + items[257:]
         for ch in core.chunks([i for i in items if i not in sub], 16):
             tasks.append(("slice", (name, "pw", ch)))
